@@ -781,6 +781,43 @@ def r5(ctx, cfg):
                     ok = len(wr) == 1 and (ch.dominates(wr[0][0], pb))
                     d = "process_queue is not run after self.block has been replaced"
         ctx.ob(R, k3, "every-block-update-runs-the-queue", ok, d, fn=h, sample="new block in place -> process_queue -> return, on every path")
+    # ... and those two are the only ways to change the block of a running App: any other method of App that writes
+    # `self.block` (or hands out `&mut self.block`) must run the queue as well, on every path
+    for h in F.user_fns():
+        if h.file != "src/app.rs" or not h.key.startswith("app::App::") or h.key in ("app::App::set_block", "app::App::update_block") or h.kind == "closure":
+            continue
+        if not (h.arg_count >= 1 and h.locals[1].get("ref") == "mut" and str(h.locals[1].get("pointee", "")).startswith("app::App<")):
+            continue
+        writes = [(b, i) for b, i, st in h.stmts() if st["k"] == "assign" and
+                  st["dst"]["l"] == 1 and [e.get("name") for e in st["dst"]["p"] if e["k"] == "field"][:1] == ["block"]]
+        # `&mut self.block` counts when the reference is handed on as `&mut` (a pattern `let Self { block, .. } = self` binds
+        # one that is only read through)
+        handles = {st["dst"]["l"] for b, i, st in h.stmts() if st["k"] == "assign" and st["rv"].get("k") == "ref" and st["rv"].get("mut") and
+                   st["rv"]["place"]["l"] == 1 and [e.get("name") for e in st["rv"]["place"]["p"] if e["k"] == "field"][:1] == ["block"] and not st["dst"]["p"]}
+        for b, i, st in h.stmts():
+            if st["k"] != "assign":
+                continue
+            rv = st["rv"]
+            if rv.get("k") == "ref" and rv.get("mut") and rv["place"]["l"] in handles:
+                handles.add(st["dst"]["l"])
+            ops = [rv.get("op")] + list(rv.get("ops", []))
+            if any(o and o.get("k") == "move" and o["place"]["l"] in handles and not o["place"]["p"] for o in ops):
+                if rv.get("k") == "aggregate":
+                    writes.append((b, i))
+                elif not st["dst"]["p"]:
+                    handles.add(st["dst"]["l"])
+            if st["dst"]["l"] in handles and st["dst"]["p"] and st["dst"]["p"][0]["k"] == "deref":
+                writes.append((b, i))
+        for b, t2 in h.calls():
+            if any(a.get("k") == "move" and a["place"]["l"] in handles and not a["place"]["p"] for a in t2["args"]):
+                writes.append((b, 10 ** 6))
+        if not writes:
+            continue
+        ch = cfg_of(h)
+        pq = [b for b, t2 in h.calls() if t2["callee"]["key"].endswith("Staking::process_queue")]
+        ok = len(pq) == 1 and all(ch.must_pass(pq[0], r) for r in ch.return_blocks()) and all(ch.dominates(b, pq[0]) for b, i in writes)
+        ctx.ob(R, h.key, "every-block-update-runs-the-queue", ok, "%s changes App.block without running the unbonding queue afterwards on every path" % h.key, fn=h,
+               sample="write of self.block -> process_queue -> return")
     # <StakeKeeper as Staking>::process_queue delegates to it
     key2 = "<staking::StakeKeeper as staking::Staking>::process_queue"
     g = ctx.need_fn(R, key2)
